@@ -249,7 +249,7 @@ impl UnverifiedBiscuit {
     }
 
     pub(crate) fn block(&self, index: usize) -> Result<Block, error::Token> {
-        let mut block = if index == 0 {
+        let block = if index == 0 {
             proto_block_to_token_block(
                 &self.authority,
                 self.container
@@ -276,9 +276,8 @@ impl UnverifiedBiscuit {
             .map_err(error::Token::Format)?
         };
 
-        // we have to add the entire list of public keys here because
-        // they are used to validate 3rd party tokens
-        block.symbols.public_keys = self.symbols.public_keys.clone();
+        // a third-party block is read with its own key table, a first-party
+        // block with the token's (see `print_block_source`), as in `Biscuit`
         Ok(block)
     }
 
@@ -344,17 +343,14 @@ impl UnverifiedBiscuit {
             signature,
         };
 
-        let mut symbols = self.symbols.clone();
+        // a third-party block keeps its own symbol and public key tables:
+        // the token's tables are left alone, as in `Biscuit::append_third_party`
+        let symbols = self.symbols.clone();
         let mut blocks = self.blocks.clone();
 
         let container =
             self.container
                 .append_serialized(&next_keypair, payload, Some(external_signature))?;
-
-        let token_block = proto_block_to_token_block(&block, Some(external_key)).unwrap();
-        for key in &token_block.public_keys.keys {
-            symbols.public_keys.insert_fallible(key)?;
-        }
 
         blocks.push(block);
 
